@@ -27,6 +27,9 @@ TokenOps == {"decrypt_encrypted", "verify_signed", "verify_encrypted", "decrypt_
              "display_sealed", "display_unsealed", "serde_sealed", "serde_unsealed", "claims_of_sealed", "footer_unverified",
              "footer_field_of_sealed", "payload_field_of_sealed", "claims_of_unsealed", "footer_of_unsealed", "debug_sealed",
              \* the backend crates' own aliases denote exactly the core types their names say
+             \* the purpose-named entry points with an explicit assertion, on a token of the other purpose with the key that fits the token
+             "verify_aad_on_encrypted", "decrypt_aad_on_signed", "sign_aad_on_unencrypted", "encrypt_aad_on_unsigned",
+             "decrypt_aad_on_encrypted", "verify_aad_on_signed", "encrypt_aad_on_unencrypted", "sign_aad_on_unsigned",
              "alias_signed", "alias_encrypted", "alias_unsigned", "alias_unencrypted", "alias_localkey", "alias_publickey", "alias_secretkey"}
 
 \* operations the property does not speak about for key-sealing (PKE) kinds are not probed for them,
@@ -83,6 +86,8 @@ Permitted(p) ==
     [] p.op = "payload_field_of_sealed" -> FALSE
     [] p.op = "debug_sealed" -> FALSE                                    \* (C12) formatting a sealed token must not reach the unverified footer
     [] p.op \in {"alias_signed", "alias_encrypted", "alias_unsigned", "alias_unencrypted", "alias_localkey", "alias_publickey", "alias_secretkey"} -> TRUE
+    [] p.op \in {"verify_aad_on_encrypted", "decrypt_aad_on_signed", "sign_aad_on_unencrypted", "encrypt_aad_on_unsigned"} -> FALSE
+    [] p.op \in {"decrypt_aad_on_encrypted", "verify_aad_on_signed", "encrypt_aad_on_unencrypted", "sign_aad_on_unsigned"} -> TRUE
     [] p.op = "claims_of_unsealed" -> TRUE
     [] p.op = "footer_of_unsealed" -> TRUE
 
